@@ -93,13 +93,13 @@ theorem tie_skel_newSession : Gen.Skel.newSession = [
   "fd.Close()",
   "return nil, err",
   "}",
+  "s.mu.Lock()",
+  "s.name = s.queueManager.path",
+  "s.mu.Unlock()",
   "s.eventConn = s.dispatcher.newConnection(fd)",
   "if err := s.eventConn.setCallback(s); err != nil {",
   "return nil, err",
   "}",
-  "s.mu.Lock()",
-  "s.name = s.queueManager.path",
-  "s.mu.Unlock()",
   "go s.send()",
   "go s.monitorLoop()",
   "return s, nil",
